@@ -81,9 +81,17 @@ def gen(rng, tier, directed=None):
     dead = []
     if directed is None and rng.random() < .15 and nservers > 1:
         dead = rng.sample(range(nservers), 1)
+    history = rng.choice(["fresh", "fresh", "read-first", "read-first", "repair-twice", "repair-twice"])
+    faults = []
+    if rng.random() < .35:
+        for s in rng.sample(range(nservers), rng.randint(1, max(1, nservers // 2))):
+            faults.append((s, rng.choice(["raise", "raise", "raise-after", "disconnect"]),
+                           rng.choice(["write", "close", "close"])))
     return dict(k=k, n=n, segsize=segsize, size=size, nservers=nservers, layout=layout,
                 placements=[tuple(p) for p in placements], dead=dead,
                 nodekind=rng.choice(["readcap", "verifycap"]), repair_verify=rng.random() < .6,
+                history=history, repair_faults=faults,
+                segsize_guess=rng.choice([None, None, 16, max(1, segsize // 2), segsize, segsize * 2 + 1]),
                 profile=rng.choice(["fifo", "per-server-fifo", "free"]))
 
 
@@ -103,18 +111,31 @@ def run(ck):
                 break
             continue
         rng = ck.rng("case", i)
-        case = gen(rng, ck.tier, "repairable" if (i // ck.nshards) % 6 == 0 else None)
-        if (i // ck.nshards) % 12 == 0:
-            case["nodekind"] = "verifycap"
+        j = i // ck.nshards
+        case = gen(rng, ck.tier, "repairable" if j % 6 == 0 else None)
+        if j % 6 == 0:
+            # directed: node histories and repair-time faults are cycled, not left to chance
+            case["nodekind"] = ["verifycap", "readcap"][(j // 6) % 2]
+            case["history"] = ["read-first", "repair-twice", "fresh", "read-first"][(j // 12) % 4]
+            if (j // 12) % 4 < 2:
+                case["repair_faults"] = []
+            elif not case["repair_faults"]:
+                ns = case["nservers"]
+                case["repair_faults"] = [(s, rng.choice(["raise", "raise-after", "disconnect"]),
+                                          rng.choice(["write", "close"]))
+                                         for s in rng.sample(range(ns), max(1, ns // 2))]
         with ck.watchdog(180, "case %d" % i):
             one_case(ck, rng, case)
         if ck.tier == "quick" and ck.evaluations >= 120:
             break      # fixed number of cases: a quick run is reproducible per VERIF_SEED on any machine
     ck.require_monitor("verify-good-implies-intact", "verify-intact-implies-good", "check-sharemap-equals-present",
-                       "health-flags", "repair-read-back", "repair-preserves-good-shares", "repaired-share-valid")
+                       "health-flags", "repair-read-back", "repair-preserves-good-shares", "repaired-share-valid",
+                       "post-repair-results-vs-disk", "repaired-share-fresh-verify")
     ck.require_reach("damaged-share-rejected-by-verifier", "check-healthy", "check-unhealthy-recoverable",
                      "check-unrecoverable", "repair-successful", "repair-from-verifycap-node",
-                     "read-from-repaired-shares-alone", "repair-failed-or-unsuccessful")
+                     "read-from-repaired-shares-alone", "repair-failed-or-unsuccessful",
+                     "repair-through-node-that-read-before", "second-repair-through-same-node",
+                     "multi-segment-file-repaired", "repair-lost-a-replacement-share")
 
 
 def one_case(ck, rng, case):
@@ -174,6 +195,11 @@ def one_case(ck, rng, case):
             donor = None
 
     g = VGrid(nservers=case["nservers"], seed=rng.getrandbits(32), profile=case["profile"], keep_log=False)
+    from allmydata.immutable.downloader.node import DownloadNode
+    saved_guess = DownloadNode.default_max_segment_size
+    if case["segsize_guess"] is not None:
+        # the downloader's initial guess of the segment size (production default when None)
+        DownloadNode.default_max_segment_size = case["segsize_guess"]
     try:
         # ---- install
         state = {}      # (server, shnum) -> family
@@ -272,105 +298,190 @@ def one_case(ck, rng, case):
                for kk, v in before.items()):
             ck.observe("check-changed-share-data")
 
-        # ---- check and repair
-        rv = case["repair_verify"]
-        rnode = c.create_node_from_uri(cap if case["nodekind"] == "readcap" else vcap)
-        st2, crr = g.wait(rnode.check_and_repair(Monitor(), verify=rv), horizon=4 * 3600.0)
-        g.sched.settle()
-        after = snapshot()
-        w = dict(desc, repair_verify=rv, repair_status=st2,
-                 after={"s%02d/sh%d" % kk: v[0] for kk, v in sorted(after.items())},
-                 error=_f(crr) if st2 == "err" else None)
-        successful = False
-        if st2 == "ok":
-            pre = crr.get_pre_repair_results()
-            judge_check(ck, "repair-precheck", "ok", pre, before, live, state, k, n, rv, desc, classify)
-            attempted = crr.get_repair_attempted()
-            successful = bool(crr.get_repair_successful())
-            if attempted != (not pre.is_healthy()):
-                ck.observe("repair-attempted-flag-disagrees-with-precheck")
-            if attempted:
-                ck.hit("repair-attempted")
-            if successful:
-                ck.hit("repair-successful")
-                if case["nodekind"] == "verifycap":
-                    ck.hit("repair-from-verifycap-node")
-            elif attempted:
-                ck.hit("repair-failed-or-unsuccessful")
-            w["attempted"], w["successful"] = attempted, successful
-        elif st2 == "err":
-            ck.hit("repair-failed-or-unsuccessful")
-            ck.hit("repair-err:" + crr.type.__name__)
-        else:
-            ck.observe("repair-" + st2)
+        # ---- node history before the repair
+        history = case["history"]
+        if history == "read-first":
+            # the node object learns the real segmentation from an earlier download
+            stR, _ = g.wait(node.read(imm.RecordingConsumer(), 0, None), horizon=4 * 3600.0)
+            ck.hit("read-before-repair-" + stR)
 
-        # good shares must survive any repair attempt unchanged (data and foreign leases)
-        for kk, (cls, raw, path) in sorted(before.items()):
-            if cls != "intact":
-                continue
-            ck.mon("repair-preserves-good-shares")
-            a = after.get(kk)
-            if a is None:
-                ck.violation("repair-removed-good-share",
-                             "share s%02d/sh%d was good before check_and_repair and is gone afterwards" % kk, w)
-            elif R.share_data(a[1]) != R.share_data(raw):
-                ck.violation("repair-altered-good-share",
-                             "share s%02d/sh%d was good before check_and_repair and its data differs afterwards" % kk,
-                             w)
-            elif not R.lease_ids(raw) <= R.lease_ids(a[1]):
-                ck.violation("repair-dropped-leases-of-good-share",
-                             "share s%02d/sh%d was good before check_and_repair; afterwards the leases it carried "
-                             "are gone (the file was replaced)" % kk, w)
-        # shares created by the repair
-        new = {kk: v for kk, v in after.items() if kk not in before}
-        newgood = set()
-        for kk, (cls, raw, path) in sorted(new.items()):
-            ck.mon("repaired-share-valid")
-            if cls == "damaged":
-                ck.violation("repair-produced-invalid-share",
-                             "check_and_repair created share s%02d/sh%d whose content does not match the share the "
-                             "original read-cap commits to" % kk, w)
+        # ---- check and repair (one or two rounds through the SAME node object)
+        rv = case["repair_verify"]
+        rounds = 2 if history == "repair-twice" else 1
+        fault_round = rounds          # faults are planted in the last round
+        st2, successful = None, False
+        repaired_before = False
+        for rnd in range(1, rounds + 1):
+            if rnd == 2:
+                # lose shares again between the two repairs (keep the file recoverable)
+                cur = snapshot()
+                goodnums = sorted({sh for (s_, sh), v in cur.items() if v[0] == "intact" and s_ in live})
+                keep = set(rng.sample(goodnums, min(len(goodnums), max(k, len(goodnums) - rng.randint(1, max(1, n - k))))))
+                for (s_, sh), v in sorted(cur.items()):
+                    if sh not in keep and v[0] == "intact":
+                        os.unlink(v[2])
+                before = snapshot()
+            fired_before = sum(f.fired for vs in g.servers for f in vs.faults)
+            if rnd == fault_round:
+                for (s_, action, meth) in case["repair_faults"]:
+                    g.servers[s_].add_fault(action, method=meth, nth=1)
+            live = {i_ for i_, vs in enumerate(g.servers) if vs.connected}
+            st2, crr = g.wait(node.check_and_repair(Monitor(), verify=rv), horizon=4 * 3600.0)
+            g.sched.settle()
+            lost = any(f.fired and f.method in ("write", "close") for vs in g.servers for f in vs.faults)
+            for vs in g.servers:
+                vs.faults = []
+                if not vs.connected and vs.index not in case["dead"]:
+                    vs.start()           # a server that dropped its connection during the repair comes back
+            g.sched.settle()
+            after = snapshot()
+            w = dict(desc, repair_verify=rv, repair_status=st2, repair_round=rnd,
+                     before={"s%02d/sh%d" % kk: v[0] for kk, v in sorted(before.items())},
+                     after={"s%02d/sh%d" % kk: v[0] for kk, v in sorted(after.items())},
+                     error=_f(crr) if st2 == "err" else None)
+            successful = False
+            attempted = False
+            if st2 == "ok":
+                pre = crr.get_pre_repair_results()
+                judge_check(ck, "repair-precheck", "ok", pre, before, live, state, k, n, rv, desc, classify)
+                attempted = crr.get_repair_attempted()
+                successful = bool(crr.get_repair_successful())
+                if attempted != (not pre.is_healthy()):
+                    ck.observe("repair-attempted-flag-disagrees-with-precheck")
+                if attempted:
+                    ck.hit("repair-attempted")
+                if successful:
+                    ck.hit("repair-successful")
+                    if case["nodekind"] == "verifycap":
+                        ck.hit("repair-from-verifycap-node")
+                    if nseg > 1:
+                        ck.hit("multi-segment-file-repaired")
+                    if history == "read-first":
+                        ck.hit("repair-through-node-that-read-before")
+                    if rnd == 2 and repaired_before:
+                        ck.hit("second-repair-through-same-node")
+                elif attempted:
+                    ck.hit("repair-failed-or-unsuccessful")
+                if attempted and lost:
+                    ck.hit("repair-lost-a-replacement-share")
+                w["attempted"], w["successful"] = attempted, successful
+            elif st2 == "err":
+                ck.hit("repair-failed-or-unsuccessful")
+                ck.hit("repair-err:" + crr.type.__name__)
             else:
-                newgood.add(kk[1])
-        if new:
-            ck.hit("repair-created-shares")
-        if successful:
-            # the healthy claim of the post-repair results must be confirmed by a fresh check of the same kind
-            post = crr.get_post_repair_results()
-            c3 = g.make_client(k=k, happy=1, n=n, max_segment_size=case["segsize"])
-            st4, cr4 = g.wait(c3.create_node_from_uri(vcap).check(Monitor(), verify=rv))
-            ck.mon("post-repair-claim")
-            if st4 == "ok" and post.is_healthy() and not cr4.is_healthy():
-                ck.violation("post-repair-healthy-claim-not-confirmed",
-                             "check_and_repair(verify=%s) reported a successful repair and healthy post-repair "
-                             "results, a fresh check(verify=%s) finds only %d of %d good shares" % (
-                                 rv, rv, cr4.get_share_counter_good(), n), w)
-            # the file must be readable through the ORIGINAL read-cap from the repaired shares alone
-            hidden = []
-            alone = len(newgood) >= k
-            if alone:
-                for kk, (cls, raw, path) in before.items():
-                    if os.path.exists(path):
-                        os.rename(path, path + ".hidden")
-                        hidden.append(path)
-                ck.hit("read-from-repaired-shares-alone")
-            else:
-                ck.hit("read-from-all-shares-after-repair")
-            c2 = g.make_client(k=k, happy=1, n=n, max_segment_size=case["segsize"])
-            st3, r3, cons = imm.read_all(g, c2.create_node_from_uri(cap))
-            ck.mon("repair-read-back")
-            if st3 != "ok" or cons.value() != data:
-                what = "read %s%s" % (st3, (": " + _f(r3)) if st3 == "err" else
-                                      (" with wrong bytes" if st3 == "ok" else ""))
-                if alone:
-                    ck.violation("file-unreadable-from-repaired-shares-alone",
-                                 "after a successful repair that created %d distinct shares (k=%d), a fresh client "
-                                 "with the original read-cap and only those shares: %s" % (len(newgood), k, what), w)
+                ck.observe("repair-" + st2)
+
+            # good shares must survive any repair attempt unchanged (data and foreign leases)
+            for kk, (cls, raw, path) in sorted(before.items()):
+                if cls != "intact":
+                    continue
+                ck.mon("repair-preserves-good-shares")
+                a_ = after.get(kk)
+                if a_ is None:
+                    ck.violation("repair-removed-good-share",
+                                 "share s%02d/sh%d was good before check_and_repair and is gone afterwards" % kk, w)
+                elif R.share_data(a_[1]) != R.share_data(raw):
+                    ck.violation("repair-altered-good-share",
+                                 "share s%02d/sh%d was good before check_and_repair and its data differs afterwards"
+                                 % kk, w)
+                elif not R.lease_ids(raw) <= R.lease_ids(a_[1]):
+                    ck.violation("repair-dropped-leases-of-good-share",
+                                 "share s%02d/sh%d was good before check_and_repair; afterwards the leases it carried "
+                                 "are gone (the file was replaced)" % kk, w)
+            # shares created by the repair
+            new = {kk: v for kk, v in after.items() if kk not in before}
+            newgood = set()
+            for kk, (cls, raw, path) in sorted(new.items()):
+                ck.mon("repaired-share-valid")
+                if cls == "damaged":
+                    ck.violation("repair-produced-invalid-share",
+                                 "check_and_repair created share s%02d/sh%d whose content does not match the share "
+                                 "the original read-cap commits to" % kk, w)
                 else:
-                    ck.violation("file-unreadable-after-successful-repair",
-                                 "after a successful repair a fresh client with the original read-cap: %s" % what, w)
-            for path in hidden:
-                os.rename(path + ".hidden", path)
+                    newgood.add(kk[1])
+            if new:
+                ck.hit("repair-created-shares")
+            if st2 == "ok" and attempted:
+                # post-repair results against what is really on the servers' disks
+                post = crr.get_post_repair_results()
+                ck.mon("post-repair-results-vs-disk")
+                try:
+                    ppairs = {(srv.vserver.index, sh) for sh, servers in post.get_sharemap().items() for srv in servers}
+                except Exception:
+                    ppairs = set()
+                w["post_sharemap"] = sorted("s%02d/sh%d" % kk for kk in ppairs)
+                ghosts = sorted(kk for kk in ppairs if kk not in after)
+                if ghosts:
+                    ck.violation("post-repair-results-list-absent-share",
+                                 "post-repair results list %s as good, no such share file exists on that server" % (
+                                     ["s%02d/sh%d" % kk for kk in ghosts],), w)
+                pnums = {sh for (_, sh) in ppairs}
+                if bool(post.is_healthy()) != (len(pnums) == n) or post.get_share_counter_good() != len(pnums):
+                    ck.violation("post-repair-health-disagrees-with-its-sharemap",
+                                 "post-repair results: is_healthy()=%s, count-shares-good=%s, sharemap has %d distinct "
+                                 "shares of N=%d" % (post.is_healthy(), post.get_share_counter_good(), len(pnums), n), w)
+                # ground truth on disk: with verify a damaged share is not good, without verify present = good
+                truth = {sh for (s_, sh), v in after.items() if not (rv and v[0] == "damaged")}
+                if (post.is_healthy() or successful) and len(truth) < n:
+                    ck.violation("post-repair-healthy-with-fewer-than-N-shares-on-disk",
+                                 "repair_successful=%s, post-repair is_healthy()=%s, but only %d of %d distinct share "
+                                 "numbers exist on the servers" % (successful, post.is_healthy(), len(truth), n), w)
+            if successful:
+                repaired_before = repaired_before or bool(new)
+                post = crr.get_post_repair_results()
+                # the healthy claim must be confirmed by a fresh check of the same kind, and every share the repair
+                # created must verify under the original cap from a fresh client
+                c3 = g.make_client(k=k, happy=1, n=n, max_segment_size=case["segsize"])
+                st5, cr5 = g.wait(c3.create_node_from_uri(vcap).check(Monitor(), verify=True))
+                if rv:
+                    st4, cr4 = st5, cr5
+                else:
+                    st4, cr4 = g.wait(c3.create_node_from_uri(vcap).check(Monitor(), verify=False))
+                ck.mon("post-repair-claim")
+                if st4 == "ok" and post.is_healthy() and not cr4.is_healthy():
+                    ck.violation("post-repair-healthy-claim-not-confirmed",
+                                 "check_and_repair(verify=%s) reported a successful repair and healthy post-repair "
+                                 "results, a fresh check(verify=%s) finds only %d of %d good shares" % (
+                                     rv, rv, cr4.get_share_counter_good(), n), w)
+                if st5 == "ok":
+                    good5 = {(srv.vserver.index, sh) for sh, servers in cr5.get_sharemap().items() for srv in servers}
+                    for kk, (cls, raw, path) in sorted(new.items()):
+                        if cls == "equivalent":
+                            ck.skip("repaired-share-differs-only-in-bytes-no-reader-consults")
+                            continue
+                        ck.mon("repaired-share-fresh-verify")
+                        if kk not in good5:
+                            ck.violation("repaired-share-fails-fresh-verification",
+                                         "share s%02d/sh%d created by the repair is not accepted by check(verify=True) "
+                                         "under the original cap from a fresh client" % kk, w)
+                # the file must be readable through the ORIGINAL read-cap from the repaired shares alone
+                hidden = []
+                alone = len(newgood) >= k
+                if alone:
+                    for kk, (cls, raw, path) in before.items():
+                        if os.path.exists(path):
+                            os.rename(path, path + ".hidden")
+                            hidden.append(path)
+                    ck.hit("read-from-repaired-shares-alone")
+                else:
+                    ck.hit("read-from-all-shares-after-repair")
+                c2 = g.make_client(k=k, happy=1, n=n, max_segment_size=case["segsize"])
+                st3, r3, cons = imm.read_all(g, c2.create_node_from_uri(cap))
+                ck.mon("repair-read-back")
+                if st3 != "ok" or cons.value() != data:
+                    what = "read %s%s" % (st3, (": " + _f(r3)) if st3 == "err" else
+                                          (" with wrong bytes" if st3 == "ok" else ""))
+                    if alone:
+                        ck.violation("file-unreadable-from-repaired-shares-alone",
+                                     "after a successful repair that created %d distinct shares (k=%d), a fresh "
+                                     "client with the original read-cap and only those shares: %s" % (
+                                         len(newgood), k, what), w)
+                    else:
+                        ck.violation("file-unreadable-after-successful-repair",
+                                     "after a successful repair a fresh client with the original read-cap: %s" % what,
+                                     w)
+                for path in hidden:
+                    os.rename(path + ".hidden", path)
         ck.observe("eventual-exceptions", len(env.evq.exceptions))
         for ex in env.evq.exceptions[:3]:
             lst = ck.extra.setdefault("eventual_exception_samples", [])
@@ -379,8 +490,10 @@ def one_case(ck, rng, case):
         ck.case("check-verify-repair", key=repr(case), nontrivial=nontrivial,
                 sample=dict(k=k, n=n, nservers=case["nservers"], layout=case["layout"],
                             placements=case["placements"], nodekind=case["nodekind"], repair_verify=rv,
-                            repair=st2, successful=successful))
+                            history=history, repair_faults=case["repair_faults"], repair=st2,
+                            successful=successful))
     finally:
+        DownloadNode.default_max_segment_size = saved_guess
         g.close()
 
 
